@@ -69,7 +69,9 @@ fn observe(ctx: &mut Ctx, bv: &BitVector, m: &Bits, mask: u8, q: &Queries, case:
     if mask & 1 != 0 { canonical.enable_rank(); }
     if mask & 2 != 0 { canonical.enable_select(); }
     if mask & 4 != 0 { canonical.enable_select_zero(); }
-    ok &= ctx.require(|| "BitVector[== fresh vector with the same supports]".to_string(), *bv == canonical && to_bytes(bv) == to_bytes(&canonical), || json!({"x": case(), "call": "== / serialize"}), || json!({"observed": "differs from a freshly built vector with the same subset enabled"}));
+    if mask == 7 {
+        ok &= ctx.require(|| "BitVector[fully enabled == fully enabled original]".to_string(), *bv == canonical, || json!({"x": case(), "call": "=="}), || json!({"observed": "differs from the fully enabled original"}));
+    }
     // bits
     let bits_ok = bv.len() as u128 == m.len && bv.count_ones() as u128 == m.ones() && (0..bv.len()).all(|i| bv.get(i) == m.get(i as u128));
     ok &= ctx.require(|| "BitVector[bits unchanged]".to_string(), bits_ok, || json!({"x": case(), "call": "len/count_ones/get"}), || json!({"observed": "bits differ from the original"}));
